@@ -908,6 +908,9 @@ func httpRespDriver(a *Args) {
 	if a.Mode == "" {
 		cfgs = hx.AgentConfigs()
 		res.Extra["agent_configurations"] = len(cfgs)
+		// ... and one stack whose agent gives up on its calls to the proxy after a second (--proxy-timeout=1s), for
+		// responses that take longer than that: what then reaches the client must not look like a complete response
+		cfgs = append(cfgs, hx.AgentConfig{"timeout": "1s", "cut": "yes"})
 	}
 	for ci, cfg := range cfgs {
 		cfgTag := ""
@@ -954,6 +957,7 @@ func httpRespDriver(a *Args) {
 			} else if quiet > 0 {
 				s.slowBody = quiet
 			}
+			cut := strings.HasPrefix(pass, "cut")
 			mu.Lock()
 			scripts[id] = s
 			mu.Unlock()
@@ -1000,7 +1004,13 @@ func httpRespDriver(a *Args) {
 			} else {
 				errText = err.Error()
 			}
-			hx.Emit("RespCase", "case", id, "sig", sig, "in", s.in, "out", out, "err", errText)
+			if cut {
+				// the exchange cannot complete (the agent's upload is cut by its time-out): judged is only that a
+				// response which arrives without any error is the backend's response
+				hx.Emit("CutCase", "case", id, "sig", sig, "in", s.in, "out", out, "err", errText, "clean", errText == "" && out["status"] != 0)
+			} else {
+				hx.Emit("RespCase", "case", id, "sig", sig, "in", s.in, "out", out, "err", errText)
+			}
 			res.Case(sig, map[string]interface{}{"classes": c})
 			if ex, code := agent.Exited(); ex {
 				kind, inRepo, exc := hx.RaceReport(agent.Output())
@@ -1018,6 +1028,21 @@ func httpRespDriver(a *Args) {
 				}
 				return
 			}
+		}
+		if cfg["cut"] == "yes" {
+			k := 0
+			for _, c := range cases.Resp {
+				if c.Method != "GET" || c.Status != 200 || c.Body == "empty" || c.Interim != "none" || c.Framing == "length" {
+					continue
+				}
+				one(c, "cut:2500", rng)
+				if k++; k == 3 {
+					break
+				}
+			}
+			agent.Kill()
+			proxy.Kill()
+			continue
 		}
 		var sel []respCase
 		covered := map[string]bool{}
@@ -1044,7 +1069,9 @@ func httpRespDriver(a *Args) {
 		runConcurrently(len(sel), 16, func(i int) {
 			one(sel[i], "c", rand.New(rand.NewSource(int64(hx.Seed())*1000003+int64(i))))
 		})
-		if cfgTag == "" && a.Mode == "" {
+		// (a quiet period has to fit into the agent's --proxy-timeout, which covers the whole upload of a response: periods
+		// up to 55 s run under the default of 60 s, longer ones under the configuration with 5 m)
+		if (cfgTag == "" || cfgTag == "@timeout=long") && a.Mode == "" {
 			// exchanges in which the backend goes quiet for longer than common time-outs (before its header, inside
 			// its body), all at the same time: the response is the same response
 			type quietCase struct {
@@ -1053,6 +1080,9 @@ func httpRespDriver(a *Args) {
 			}
 			var qs []quietCase
 			for _, d := range pauseClasses() {
+				if (d >= 55*time.Second) != (cfgTag == "@timeout=long") {
+					continue
+				}
 				k := 0
 				for _, c := range sel {
 					if c.Method == "HEAD" || c.Status == 204 || c.Status == 304 || c.Body == "empty" || c.Interim != "none" {
